@@ -3,7 +3,8 @@ granularity — the `closed` flag is flipped under the connection mutex in five 
 error branches of `Write`, `Writev`, `flush`, `Sendfile`); the teardown (`closeWithErrorWithoutLock`: record the
 cause, fail a pending dial, release the write queue, leave the fd table, notify, close the descriptor) runs
 outside that critical section and only in the goroutine that flipped the flag; `addConn` is a closed test and four
-separate statements (`c.p = p`, open notification, fd table, epoll registration); an asynchronous dial is `pending` until the
+statements (`c.p = p` in the critical section of the test; open notification; then closed test, fd table and epoll
+registration in a second critical section); an asynchronous dial is `pending` until the
 poller sees writability (`dialed`: SO_ERROR decides) or the close path fails it; the dial timeout is armed in a
 separate step, only while the dial is pending.
 
@@ -49,7 +50,7 @@ structure Conn where
   wTdial : Bool := false        -- … and it is the dial timeout
   log : Nat := 0                -- syscalls issued on the descriptor
   fdOpen : Bool := true
-  add : Nat := 0                -- addConn: 0 not started, 1 closed test passed, 2 `c.p` set, 3 announced, 4 in table, 5 done, 6 refused
+  add : Nat := 0                -- addConn: 0 not started, 1 closed test passed, 2 `c.p` set, 3 announced, 4 in table, 5 done (or refused after the announcement), 6 refused
   wg : Int := 0                 -- ghost: this conn's contribution to the engine's connection wait group
   early : Bool := false         -- ghost: a close notification was issued before the open notification
   raced : Bool := false         -- ghost: the holder of the *Conn closed it after addConn's `c.p = p` / Unlock and before its open notification
@@ -93,11 +94,11 @@ def closeNow (c : Conn) (e : Err) : Conn := if c.closed then c else teardown (fl
 def addCheck (c : Conn) : Conn := if c.closed then { c with add := 6 } else { c with add := 1 }
 def addP (c : Conn) : Conn := { c with pSet := true, add := 2 }
 def addOpen (c : Conn) : Conn := { c with opens := c.opens + 1, visible := true, wg := c.wg + 1, add := 3 }
-def addTable (c : Conn) : Conn := { c with inTable := true, add := 4 }
-/-- `addRead`: on a descriptor that was closed meanwhile (a `Close` from inside the open notification) epoll_ctl
-    fails, `addConn` takes the conn out of the table again and its `closeWithError` finds the flag already set -/
-def addReg (c : Conn) : Conn :=
-  if c.fdOpen then { c with reg := true, log := c.log + 1, add := 5 } else { c with inTable := false, add := 5 }
+/-- after the open notification: ONE critical section — closed test (a conn closed from inside its open notification
+    is refused: its descriptor number may already belong to another conn, neither the table nor epoll are touched),
+    table store, epoll registration -/
+def addTable (c : Conn) : Conn := if c.closed then { c with add := 5 } else { c with inTable := true, add := 4 }
+def addReg (c : Conn) : Conn := { c with reg := true, log := c.log + 1, add := 5 }
 
 /-- `readUDP`: `getConn` creates the session of a new remote and `onOpen` announces it (under the listener's mutex) -/
 def sessOpen (c : Conn) : Conn := { c with pSet := true, opens := c.opens + 1, visible := true, wg := c.wg + 1, add := 5 }
@@ -155,6 +156,9 @@ inductive Act
   | op (sys : Nat)                      -- Write / Writev / Sendfile / Execute / Read by a user
   deriving Repr
 
+/-- not inside one of `addConn`'s two critical sections (whoever needs the conn's mutex waits) -/
+def free (c : Conn) : Bool := c.add != 1 && c.add != 4
+
 /-- enabling conditions = who can reach the conn when. The caller of `AddConn` holds the `*Conn` all along, so it can
     flip at any time (`kind = add`); accepted conns, sessions and dialing conns are reachable by others only once
     they were announced / registered. `addConn` tests the flag and assigns `c.p` in ONE critical section of the conn's
@@ -175,17 +179,17 @@ def step (c : Conn) : Act → Option Conn
   | .armDial => if c.kind == .dial && c.visible then some (armDial c) else none
   | .kconnect r => if c.kind == .dial && c.dial == .pending && c.kres.isNone then some { c with kres := some r } else none
   | .dialed => if c.kind == .dial && c.inTable && c.kres.isSome then some (dialed c) else none
-  | .flip e st => if (c.visible || c.kind == .add) && c.add != 1 then some (flip c e st) else none
+  | .flip e st => if (c.visible || c.kind == .add) && free c then some (flip c e st) else none
   | .teardown => if c.td.isSome then some (teardown c) else none
-  | .timerR => if c.rT && c.visible then some (flip c .rtimeout true) else none
-  | .timerW => if c.wT && c.visible then some (timerW c) else none
+  | .timerR => if c.rT && c.visible && free c then some (flip c .rtimeout true) else none
+  | .timerW => if c.wT && c.visible && free c then some (timerW c) else none
   | .setDl r w =>
-    if c.visible && !c.closed then
+    if c.visible && !c.closed && free c then
       some { c with rT := c.rT || r, wT := c.wT || w, wTdial := if w && !c.wT then false else c.wTdial }
     else none
-  | .clearW => if c.visible && !c.closed then some { c with wT := false, wTdial := false } else none
-  | .setQ q => if c.visible && !c.closed then some { c with q := q } else none
-  | .op sys => if (c.visible || c.kind == .add) && c.add != 1 then some (userOp c sys).1 else none
+  | .clearW => if c.visible && !c.closed && free c then some { c with wT := false, wTdial := false } else none
+  | .setQ q => if c.visible && !c.closed && free c then some { c with q := q } else none
+  | .op sys => if (c.visible || c.kind == .add) && free c then some (userOp c sys).1 else none
 
 def run (c : Conn) : List Act → Conn
   | [] => c
